@@ -82,18 +82,18 @@ Lemma add_core_more own e fuel : forall t p,
   match add_core own e fuel t p with
   | (r, pr, t') =>
       (length pr <= 1)%nat /\
-      (r = Ret false -> Permutation (contacts t) (contacts t') /\ ~ In (pid p) (map pid (contacts t'))) /\
+      (r = Ret false \/ r = ErrProbe -> Permutation (contacts t) (contacts t') /\ ~ In (pid p) (map pid (contacts t'))) /\
       (is_ret r = true -> joined t -> joined t')
   end.
 Proof.
   induction fuel as [| f IH]; intros t p W N Hp Ho; cbn [add_core].
-  { split; [cbn; lia |]. split; [intros H; discriminate H | cbn; intros H; discriminate H]. }
+  { split; [cbn; lia |]. split; [intros [H | H]; discriminate H | cbn; intros H; discriminate H]. }
   pose proof W as [C OK I Ky].
   destruct (find_bucket_chain own (pid p) 0 t M C) as (pre & b & post & F).
   { split; [lia | apply dist_lt_M; assumption]. }
   rewrite F. pose proof (find_bucket_some _ _ _ _ _ _ F) as (Et & Rg & _).
   destruct (bucket_add b p) as [b' |] eqn:A.
-  { split; [cbn; lia |]. split; [intros H; discriminate H |]. intros _ J. subst t.
+  { split; [cbn; lia |]. split; [intros [H | H]; discriminate H |]. intros _ J. subst t.
     eapply joined_replace; [exact J | eapply bucket_add_nonempty; exact A]. }
   pose proof (bucket_add_none _ _ A) as (NoId & Full).
   assert (Nid : ~ In (pid p) (map pid (contacts t))).
@@ -116,57 +116,67 @@ Proof.
       * intros Er. destruct (I2 Er) as (P2 & N2). split; [eapply Permutation_trans; eauto | exact N2].
       * intros _ _. apply (join_done own). exact W3.
     + split; [exact I1 |]. split; [| intros H; congruence].
-      intros Er. subst r. cbn in Rr. discriminate Rr.
+      intros Er. destruct (I2 Er) as (P2 & N2). split; [eapply Permutation_trans; eauto | exact N2].
   - destruct (choose_replace e b) as [q |] eqn:CR.
     2:{ split; [cbn; lia |]. split; [intros _; split; [reflexivity | exact Nid] | auto]. }
     destruct (probe e q).
-    { split; [cbn; lia |]. split; [intros _; split; [reflexivity | exact Nid] | auto]. }
+    1:{ split; [cbn; lia |]. split; [intros _; split; [reflexivity | exact Nid] | auto]. }
+    2:{ split; [cbn; lia |]. split; [intros _; split; [reflexivity | exact Nid] | cbn; intros H; discriminate H]. }
     destruct f as [| f'].
-    { cbn [add_core]. split; [cbn; lia |]. split; [intros H; discriminate H | cbn; intros H; discriminate H]. }
+    { cbn [add_core]. split; [cbn; lia |]. split; [intros [H | H]; discriminate H | cbn; intros H; discriminate H]. }
     subst t. destruct (add_core_after_remove own e f' pre b post p q W F A (choose_replace_in _ _ _ CR)) as (b'' & Nb & ->).
-    split; [cbn; lia |]. split; [intros H; discriminate H |]. intros _ J.
+    split; [cbn; lia |]. split; [intros [H | H]; discriminate H |]. intros _ J.
     eapply joined_replace; [exact J | exact Nb].
 Qed.
 
 Lemma add_peer_more own e fuel t p :
-  WF own t -> own < M -> pid p < M -> (386 <= fuel)%nat -> joined t ->
+  WF own t -> own < M -> pid p < M -> (386 <= fuel)%nat ->
   match add_peer true own e fuel t p with
   | (r, pr, t') =>
-      (length pr <= 1)%nat /\ joined t' /\
-      (r = Ret false ->
+      (length pr <= 1)%nat /\ (is_ret r = true -> joined t -> joined t') /\
+      (r = Ret false \/ r = ErrProbe ->
          ~ In (pid p) (map pid (contacts t')) /\
          (forall x, In x (contacts t') -> In x (contacts t)) /\
-         (forall x, In x (contacts t) -> pkey x <> pkey p -> In x (contacts t')))
+         (forall x, In x (contacts t) -> pkey x <> pkey p -> In x (contacts t')) /\
+         (forall x, In x pr -> In x (contacts t')))
   end.
 Proof.
-  intros W Ho Hp Fu J. destruct fuel as [| f]; [lia |].
-  pose proof (add_peer_facts own e (S f) t p W Ho Hp Fu) as Facts.
+  intros W Ho Hp Fu. destruct fuel as [| f]; [lia |].
   destruct (evict_top own p t W) as (t1 & E & W1 & Sb & N1 & Kp).
-  assert (J1 : joined t1) by (eapply (evict_joined own p (contacts t) t W (contacts_dist_lt own t W) J); exact E).
+  assert (J1 : joined t -> joined t1)
+    by (intros J; eapply (evict_joined own p (contacts t) t W (contacts_dist_lt own t W) J); exact E).
   assert (Eq : add_peer true own e (S f) t p = add_core own e (S f) t1 p).
   { rewrite <- (add_peer_core own e (S f) t1 p W1 N1). cbn [add_peer]. rewrite E.
     rewrite (evict_noop true own p (contacts t1) t1); [reflexivity |].
     intros x Hx. apply conflict_false_iff. apply N1. exact Hx. }
   rewrite Eq in *.
   pose proof (add_core_more own e (S f) t1 p W1 N1 Hp Ho) as More.
+  pose proof (add_core_inv own e (S f) t1 p W1 N1 Hp Ho) as Inv.
   destruct (add_core own e (S f) t1 p) as [[r pr] t'].
-  destruct More as (M1 & M2 & M3). destruct Facts as (_ & (v & ->) & _).
-  split; [exact M1 |]. split; [apply M3; [reflexivity | exact J1] |].
+  destruct Inv as (_ & _ & _ & _ & _ & I5 & _).
+  destruct More as (M1 & M2 & M3).
+  split; [exact M1 |]. split; [intros Rr J; apply M3; [exact Rr | apply J1; exact J] |].
   intros Er. destruct (M2 Er) as (P & Np). split; [exact Np |]. split.
   - intros x Hx. eapply sub_In; [exact Sb |]. eapply Permutation_in; [symmetry; exact P | exact Hx].
-  - intros x Hx Nk. eapply Permutation_in; [exact P |]. apply Kp; [exact Hx |].
-    apply conflict_false_iff. intros Sk. apply same_key_pkey in Sk. contradiction.
+  - split.
+    + intros x Hx Nk. eapply Permutation_in; [exact P |]. apply Kp; [exact Hx |].
+      apply conflict_false_iff. intros Sk. apply same_key_pkey in Sk. contradiction.
+    + intros x Hx. eapply Permutation_in; [exact P |]. apply (I5 x Hx).
 Qed.
 
 Lemma init_joined : joined init.
 Proof. reflexivity. Qed.
 
 Lemma step_joined own t o :
-  WF own t -> own < M -> op_valid o -> joined t -> joined (fst (step true own t o)).
+  WF own t -> own < M -> op_valid o -> op_nofail o -> joined t -> joined (fst (step true own t o)).
 Proof.
-  intros W Ho V J. destruct o as [p e | | p |]; cbn [step]; try exact J.
-  - pose proof (add_peer_more own e FUEL t p W Ho V FUEL_ge J) as H.
-    destruct (add_peer true own e FUEL t p) as [[r pr] t']. cbn. tauto.
+  intros W Ho V NF J. destruct o as [p e | | p |]; cbn [step]; try exact J.
+  - pose proof (add_peer_more own e FUEL t p W Ho V FUEL_ge) as H.
+    pose proof (add_peer_facts own e FUEL t p W Ho V FUEL_ge) as Facts.
+    destruct (add_peer true own e FUEL t p) as [[r pr] t']. cbn.
+    destruct H as (_ & H & _). destruct Facts as (_ & [(v & ->) | (_ & q & _ & Pq)] & _).
+    + apply H; [reflexivity | exact J].
+    + exfalso. exact (NF q Pq).
   - cbn in V. unfold remove_peer.
     destruct (find_bucket own (pid p) t) as [[[pre b] post] |] eqn:F; [| exact J].
     destruct (existsb (peer_eqb p) (bpeers b)) eqn:Ex; [| exact J]. cbn [fst].
@@ -176,14 +186,17 @@ Proof.
 Qed.
 
 Lemma run_from_joined own ops : forall t,
-  WF own t -> own < M -> Forall op_valid ops -> joined t -> joined (fst (run_from true own t ops)).
+  WF own t -> own < M -> Forall op_valid ops -> Forall op_nofail ops -> joined t ->
+  joined (fst (run_from true own t ops)).
 Proof.
-  induction ops as [| o r IH]; intros t W Ho V J; cbn [run_from]; [exact J |].
-  inversion V; subst. pose proof (step_wf own t o W Ho H1) as (W' & _).
-  pose proof (step_joined own t o W Ho H1 J) as J'.
+  induction ops as [| o r IH]; intros t W Ho V NF J; cbn [run_from]; [exact J |].
+  inversion V; subst. inversion NF; subst. pose proof (step_wf own t o W Ho H1) as (W' & _).
+  pose proof (step_joined own t o W Ho H1 H3 J) as J'.
   destruct (step true own t o) as [t' x]. cbn [fst] in *.
-  specialize (IH t' W' Ho H2 J'). destruct (run_from true own t' r). exact IH.
+  specialize (IH t' W' Ho H2 H4 J'). destruct (run_from true own t' r). exact IH.
 Qed.
 
-Lemma run_joined own ops : own < M -> Forall op_valid ops -> joined (run own ops).
-Proof. intros Ho V. unfold run. apply run_from_joined; [apply init_wf | exact Ho | exact V | exact init_joined]. Qed.
+Lemma run_joined own ops : own < M -> Forall op_valid ops -> Forall op_nofail ops -> joined (run own ops).
+Proof.
+  intros Ho V NF. unfold run. apply run_from_joined; [apply init_wf | exact Ho | exact V | exact NF | exact init_joined].
+Qed.
